@@ -11,6 +11,7 @@ input is the publisher's `wire`.
 import SeliumModel.Props.C14
 import SeliumModel.Client.PubSubClient
 import SeliumModel.Lemmas.Subscriber
+import SeliumModel.Props.C01
 
 namespace Selium.Client
 open Selium Selium.Wire
@@ -301,6 +302,76 @@ theorem c03_subscriber_state_machine_refines_outputs (c : Codec α) (z : Compres
   have := drain_spec c z r n [] frames (by simpa [Sub.pendingOutputs] using hn)
   simpa [Sub.pendingOutputs] using this
 
+/-! ### through the router
+
+The fidelity theorem above speaks about the publisher's `wire` and the subscriber's input being the same frames.
+That is what the pub/sub router provides (C01); here the two are put together. -/
+open Selium.Route Selium.Sink in
+theorem fromPub_all (acc : List WFrame) (src : List Nat) (sid : Nat) (hl : src.length = acc.length)
+    (h : ∀ i ∈ src, i = sid) : fromPub acc src sid = acc := by
+  induction acc generalizing src with
+  | nil => cases src <;> simp [fromPub]
+  | cons x xs ih =>
+    cases src with
+    | nil => simp at hl
+    | cons i is =>
+      have hi : i = sid := h i (by simp)
+      simp only [fromPub, hi, if_true]
+      rw [ih is (by simpa using hl) (fun j hj => h j (by simp [hj]))]
+
+/-- End to end, publisher → server → subscriber: the publisher's frames (`pf.wire`) enter the topic's router as the
+    items of publisher stream `sid`; when that stream has ended and a poll has ended without being blocked by a
+    subscriber, a subscriber that was registered before the first message and is still registered has been handed —
+    and had flushed — frames from which `Subscriber::poll_next` yields exactly the items the publisher accepted, in
+    order, each once. For every codec / compressor / batching configuration, every clock, every interleaving of
+    ready / pending answers of the router's peers, every `StreamMap` order (the history is arbitrary). The only other
+    assumption: no other publisher's message was accepted on this topic (`src` names only `sid`). -/
+theorem c03_end_to_end_through_the_router_partial (c : Codec α) (good : α → Prop) (hc : c.Lossless good)
+    (z : Compressor) (hz : z.Lossless) (lim : Nat) (batchSize : Option Nat) (items : List (Bool × α))
+    (hgood : ∀ x ∈ items, good x.2) (hfit : ∀ (pend : List α) ms, mapRes c.encode pend = .ok ms → Fits ms)
+    (p pf : Pub)
+    (hsend : ({ batch := batchSize.map (fun _ => []), size := batchSize.getD 0 } : Pub).sendAll c z lim items = .ok p)
+    (hfinish : p.finish z lim = .ok pf)
+    -- the router's side: any history, then a poll that ends quiescent
+    (history : List (Selium.Route.Event WFrame)) (fuel : Nat) (oracle : List Nat)
+    (hq : (Selium.Route.pollFuel fuel oracle (Selium.Route.exec history)).1 = .idle ∨
+          (Selium.Route.pollFuel fuel oracle (Selium.Route.exec history)).1 = .waitingStreams ∨
+          (Selium.Route.pollFuel fuel oracle (Selium.Route.exec history)).1 = .done)
+    (k : Selium.Sink.Child WFrame) (hk : k ∈ (Selium.Route.pollFuel fuel oracle (Selium.Route.exec history)).2.1.sinks)
+    (hreg : k.regAt = 0)
+    (sid : Nat) (hlt : sid < (Selium.Route.pollFuel fuel oracle (Selium.Route.exec history)).2.1.nextStream)
+    (hgone : ∀ st ∈ (Selium.Route.pollFuel fuel oracle (Selium.Route.exec history)).2.1.streams, st.id ≠ sid)
+    (hscript : Selium.Route.itemsOf ((Selium.Route.pollFuel fuel oracle (Selium.Route.exec history)).2.1.scripts[sid]?.getD []) = pf.wire)
+    (honly : ∀ i ∈ (Selium.Route.pollFuel fuel oracle (Selium.Route.exec history)).2.1.src, i = sid) :
+    subscriberOutputs c z k.got = (items.map (·.2)).map Res.ok ∧ k.flushed = k.got.length := by
+  have hfid := c03_fidelity_partial c good hc z hz lim batchSize items hgood hfit p pf hsend hfinish
+  have hr := Selium.Route.c01_subscriber_gets_all_of_an_ended_publisher history fuel oracle hq k hk hreg sid hlt hgone
+  have hd := Selium.Route.c01_delivered_and_flushed history fuel oracle hq k hk
+  rw [hreg, List.drop_zero] at hd
+  have hlen : (Selium.Route.pollFuel fuel oracle (Selium.Route.exec history)).2.1.src.length = k.got.length := by
+    have hs : (Selium.Route.pollFuel fuel oracle (Selium.Route.exec history)).2.1 = Selium.Route.exec (history ++ [.poll fuel oracle]) := by
+      rw [Selium.Route.exec_snoc]; rfl
+    rw [hd.1, hs]
+    exact (Selium.Route.exec_pub (history ++ [.poll fuel oracle])).1
+  have hall := fromPub_all k.got _ sid hlen honly
+  rw [hall, hscript] at hr
+  refine ⟨?_, hr.2⟩
+  rw [hr.1]
+  exact hfid.1
+
+/-- the hypotheses of the end-to-end theorem are met by a concrete run: two unbatched messages through a router with
+    one subscriber that is not ready at first -/
+def exRouterHistory : List (Selium.Route.Event WFrame) :=
+  [.enqueue (.sink { id := 0, readyQ := [.pending] }),
+   .enqueue (.stream [.item (.message [65]), .pending, .item (.message [66])]), .poll 30 [], .poll 30 [], .poll 30 []]
+
+example :
+    let s := (Selium.Route.pollFuel 30 [] (Selium.Route.exec exRouterHistory)).2.1
+    (Selium.Route.pollFuel 30 [] (Selium.Route.exec exRouterHistory)).1 = .idle ∧
+    s.sinks.map (·.regAt) = [0] ∧ s.nextStream = 1 ∧ s.streams.length = 0 ∧ s.src = [0, 0] ∧
+    Selium.Route.itemsOf (s.scripts[0]?.getD []) = [.message [65], .message [66]] ∧
+    s.sinks.map (·.got) = [[.message [65], .message [66]]] := by decide +kernel
+
 /-! Non-vacuity: batch size 3, seven strings, no compression — the case that used to come out as
     m2,m1,m0,m5,m4,m3 with m6 lost. -/
 def exItems : List (Bool × Bytes) := (List.range 7).map fun i => (false, [UInt8.ofNat (65 + i)])
@@ -322,4 +393,6 @@ end Selium.Client
 #print axioms Selium.Client.send_inv
 #print axioms Selium.Client.c03_fidelity_partial
 #print axioms Selium.Client.c03_subscriber_state_machine_refines_outputs
+#print axioms Selium.Client.fromPub_all
+#print axioms Selium.Client.c03_end_to_end_through_the_router_partial
 #print axioms Selium.Client.c03_refused_batch_loses_accepted_members
